@@ -118,6 +118,12 @@ func main() {
 		// real sync.Pool is then deterministic.
 		runtime.GOMAXPROCS(1)
 		debug.SetGCPercent(-1)
+		// Safety valve, never reached on the pinned tree: with the collector
+		// off a modified library that allocates per operation could exhaust
+		// the machine in a marathon run. Near the limit the runtime collects
+		// after all (the real pool then loses its contents at a moment the
+		// tape did not choose; nothing else depends on it).
+		debug.SetMemoryLimit(4 << 30)
 	}
 	go func() {
 		// A process that makes no scheduler step for three minutes hangs (a
